@@ -759,3 +759,8 @@ theorem C12_isHarvestAll_tied (n : Negotiated) :
         (n.cfgs.log.period : Int) (n.cfgs.span.period : Int) (n.reportPeriod : Int) true ∧
     (∀ a b c d e f : Int, Gen.Decisions.isHarvestAll a b c d e f false = true) :=
   ⟨tied_isHarvestAll n, tied_isHarvestAll_nil⟩
+
+/-- **C12 (tie: absent / zero period means the default, as in the code).** -/
+theorem C12_checkReportPeriod_tied (period dflt : Nat) :
+    ((checkReportPeriod period dflt : Nat) : Int) = Gen.Negotiation.checkReportPeriod (dflt : Int) (period : Int) :=
+  tied_checkReportPeriod period dflt
